@@ -27,7 +27,7 @@ RULE = (
     "(a+b)*c, a-(b-c), a/(b/c), ...), rendered with exactly the parentheses the ordinary rules require plus redundant ones, "
     "and random spacing (none, blanks, tabs); booleans in the four spellings; strings over the lexer's alphabet (printable "
     "ASCII, raw tab / apostrophe / control characters / non-ASCII, each of the six escapes \\t \\r \\n \\\\ \\' \\\"); plain copies "
-    "`const X = Y` of constants of every kind. Constants are then USED: as array capacities (own, imported), as `option "
+    "`const X = Y` of constants of every kind; a constant may be followed on its line by a comment containing quotes or (after `;`) by the next constant. Constants are then USED: as array capacities (own, imported), as `option "
     "max_bytes` of messages sized exactly at / below the limit (accepted) and one byte above it (separate file, must be "
     "rejected), as `option c.struct_packing_alignment` (0,1,2,4,8 accepted and observed through _Alignof in compiled C; "
     "> 8 or < 0 must be rejected), as `option go.package_path` (string). Oracle: own evaluator on the tree (every division "
